@@ -189,7 +189,12 @@ func (fc *funcContext) translateStmt(stmt ast.Stmt, label *types.Label) {
 
 	case *ast.RangeStmt:
 		refVar := fc.newLocalVariable("_ref")
-		fc.Printf("%s = %s;", refVar, fc.translateExpr(s.X))
+		if _, isArray := fc.typeOf(s.X).Underlying().(*types.Array); isArray && s.Value != nil && !isBlank(s.Value) {
+			// The range expression is evaluated once before the loop: for an array that is a copy of the array.
+			fc.Printf("%s = %s;", refVar, fc.translateImplicitConversionWithCloning(s.X, fc.typeOf(s.X)))
+		} else {
+			fc.Printf("%s = %s;", refVar, fc.translateExpr(s.X))
+		}
 
 		switch t := fc.typeOf(s.X).Underlying().(type) {
 		case *types.Basic:
